@@ -582,8 +582,9 @@ def c10_memory(v, h, op, res, k, mem, pools):
     """ "the free cores recorded by the service": the driver keeps a copy of every instance's free cores in memory (Instance.free_cores_mcpu,
     used by the scheduler to place jobs), maintained by the REAL bookkeeping of batch/driver/job.py + the pool scheduler's reservation
     around schedule_job (runner.py).  After every op, for every instance that is live (pending / active) in the database, that the
-    driver knows under the same state, and that received no worker message the real service would have refused (active_instances_only):
-    in-memory free cores == instances_free_cores_mcpu.free_cores_mcpu."""
+    driver knows under the same state, and that received no message the real service cannot deliver (a worker report to an instance whose
+    in-memory state is not 'active' is refused by active_instances_only; mark_job_creating is only called for the pending instance just
+    created): in-memory free cores == instances_free_cores_mcpu.free_cores_mcpu."""
     if not mem:
         return
     for name, mstate, mfree, unauth in mem:
@@ -594,6 +595,12 @@ def c10_memory(v, h, op, res, k, mem, pools):
         if state not in ('pending', 'active') or mstate != state or unauth:
             continue
         if mfree != free:
+            # the op that FIRST separates the two copies of an instance is the failing input; while they stay apart later ops
+            # (activation included, which changes the key's state part) did not break anything new
+            broken = h.__dict__.setdefault('mem_apart', set())
+            if name in broken:
+                continue
+            broken.add(name)
             kind = 'pool' if pools.get(name, True) else 'job-private'
             h.report('C10', f'C10:in-memory-free-cores:{state}-{kind}-instance:after-{op["op"]}', k,
                      {'instance': name, 'in_memory_free': mfree, 'database_free': free, 'cores': cores, 'answer': res})
